@@ -126,7 +126,7 @@ def match_known(v: Violation, known: dict) -> Optional[dict]:
     return None
 
 
-def finish(run: Run) -> int:
+def finish(run: Run, write: bool = True) -> int:
     """write evidence, print verdict lines, return the exit code"""
     known = load_known()
     os.makedirs(EVIDENCE_DIR, exist_ok=True)
@@ -138,6 +138,14 @@ def finish(run: Run) -> int:
         else:
             new.append(v)
     vdir = os.path.join(EVIDENCE_DIR, "violations", run.prop)
+    if not write:
+        for v, e in listed:
+            print(f"KNOWN-FINDING: property={run.prop} {e.get('id', '')} {v.rule} {v.where}: {e.get('what_fails', v.message)}")
+        for v in new:
+            print(f"[{v.rule}] {v.loc} {v.where}: {v.message}")
+            print(f"VIOLATION property={run.prop} replay=<not written: --no-evidence>")
+        print(f"{run.prop} [{run.tier}]: {len(run.obligations)} obligations, {len(new)} new violation(s) (no evidence written)")
+        return 1 if new else 0
     if os.path.isdir(vdir):
         for fn in os.listdir(vdir):
             try:
